@@ -6,6 +6,8 @@
 import SqlizeModel.Spec.ProvedScope
 import SqlizeModel.Proofs.SpecUnchanged
 import SqlizeModel.Proofs.SchemaIgnoring
+import SqlizeModel.Proofs.RoundsDown
+import SqlizeModel.Proofs.RoundsHash
 
 namespace Sqlize
 open Spec Spec.Scope
@@ -140,5 +142,153 @@ theorem proved_both (g : Globals) (rc : Bool) (old new : List Stmt) (dbO dbN : D
       · intro dc hdc s hs o ho' hon hne
         obtain ⟨c, hc, hcO⟩ := y4 s hs o ho' hon hne
         exact ⟨c, hc, fun hcd => hdc c hcd hcO⟩)
+
+
+-- ---------------------------------------------------------------------------------------------------------------
+-- C04: the executable chain predicates imply the hypotheses of the rounds theorems
+
+theorem Proved.lastOf_eq (revs : List (List Stmt × DB)) : Proved.lastOf revs = lastDB revs := by
+  cases revs <;> rfl
+
+/-- `revsOf` pairs every script with the schema the reference engine builds from it -/
+theorem Proved.revsOf_spec : ∀ (scripts : List (List Stmt)) (acc revs : List (List Stmt × DB)),
+    (∀ p ∈ acc, execAll false [] p.1 = some p.2) →
+    scripts.foldl (fun acc ss => match acc, execAll false [] ss with
+      | some revs, some db => some ((ss, db) :: revs)
+      | _, _ => none) (some acc) = some revs →
+    (∀ p ∈ revs, execAll false [] p.1 = some p.2) ∧ revs.map (·.1) = scripts.reverse ++ acc.map (·.1) := by
+  intro scripts
+  induction scripts with
+  | nil =>
+    intro acc revs hacc h
+    simp only [List.foldl_nil, Option.some.injEq] at h
+    subst h
+    exact ⟨hacc, by simp⟩
+  | cons ss rest ih =>
+    intro acc revs hacc h
+    rw [List.foldl_cons] at h
+    cases he : execAll false [] ss with
+    | none =>
+      rw [he] at h
+      exfalso
+      have : ∀ l : List (List Stmt), l.foldl (fun acc ss => match acc, execAll false [] ss with
+          | some revs, some db => some ((ss, db) :: revs)
+          | _, _ => none) (none : Option (List (List Stmt × DB))) = none := by
+        intro l
+        induction l with
+        | nil => rfl
+        | cons _ _ ih => rw [List.foldl_cons]; exact ih
+      simp only at h
+      rw [this] at h
+      cases h
+    | some db =>
+      rw [he] at h
+      simp only at h
+      obtain ⟨h1, h2⟩ := ih ((ss, db) :: acc) revs (by
+        intro p hp
+        rcases List.mem_cons.mp hp with rfl | hp
+        · exact he
+        · exact hacc p hp) h
+      refine ⟨h1, ?_⟩
+      rw [h2]; simp
+
+theorem Proved.upScope_of_pairOK (dbO dbN : DB) (h : Proved.pairOK true dbO dbN = true) : UpScope dbO dbN := by
+  obtain ⟨hnm, hboth⟩ := Proved.pairOK_spec true dbO dbN h
+  refine ⟨hnm, ?_⟩
+  intro a ha b hb e
+  obtain ⟨x1, x2, x3, x4, x5⟩ := hboth a ha b hb e
+  refine ⟨x1, x2, x3, ?_, x5⟩
+  intro dc hdc s hs o ho' hon hne
+  obtain ⟨c, hc, hcN⟩ := x4 s hs o ho' hon hne
+  exact ⟨c, hc, fun hcd => hdc c hcd hcN⟩
+
+theorem Proved.downScope_of_pairOK (dbO dbN : DB) (h : Proved.pairOK false dbO dbN = true) : DownScope dbO dbN := by
+  obtain ⟨_, hboth⟩ := Proved.pairOK_spec false dbO dbN h
+  refine ⟨?_⟩
+  intro a ha b hb e dc hdc s hs o ho' hon hne
+  obtain ⟨_, _, _, x4, _⟩ := hboth a ha b hb e
+  obtain ⟨c, hc, hcO⟩ := x4 s hs o ho' hon hne
+  exact ⟨c, hc, fun hcd => hdc c hcd hcO⟩
+
+theorem Proved.chainUp_spec : ∀ (revs : List (List Stmt × DB)), Proved.chainUp revs = true →
+    (∀ p ∈ revs, p.1.all Stmt.elemSafe = true ∧ p.1.all Stmt.plainOpts = true) ∧ ChainOK revs := by
+  intro revs
+  induction revs with
+  | nil => intro _; exact ⟨fun p hp => (by cases hp), trivial⟩
+  | cons p older ih =>
+    intro h
+    unfold Proved.chainUp at h
+    simp only [Bool.and_eq_true] at h
+    obtain ⟨⟨⟨h1, h2⟩, h3⟩, h4⟩ := h
+    obtain ⟨i1, i2⟩ := ih h4
+    rw [Proved.all_eq _ _ _ Proved.elemSafe_eq] at h1
+    rw [Proved.all_eq _ _ _ Proved.plainOpts_eq] at h2
+    refine ⟨?_, ?_, i2⟩
+    · intro q hq
+      rcases List.mem_cons.mp hq with rfl | hq
+      · exact ⟨h1, h2⟩
+      · exact i1 q hq
+    · rw [← Proved.lastOf_eq]; exact Proved.upScope_of_pairOK _ _ h3
+
+theorem Proved.chainDown_spec : ∀ (revs : List (List Stmt × DB)), Proved.chainDown revs = true → ChainDownOK revs := by
+  intro revs
+  induction revs with
+  | nil => intro _; trivial
+  | cons p older ih =>
+    intro h
+    unfold Proved.chainDown at h
+    simp only [Bool.and_eq_true] at h
+    exact ⟨by rw [← Proved.lastOf_eq]; exact Proved.downScope_of_pairOK _ _ h.1, ih h.2⟩
+
+theorem Proved.chainOrdered_spec : ∀ (revs : List (List Stmt × DB)), Proved.chainOrdered revs = true → ChainOrdered revs := by
+  intro revs
+  induction revs with
+  | nil => intro _; trivial
+  | cons p older ih =>
+    intro h
+    unfold Proved.chainOrdered at h
+    simp only [Bool.and_eq_true, beq_iff_eq] at h
+    exact ⟨by rw [← Proved.lastOf_eq]; exact h.1, ih h.2⟩
+
+/-- **inside the executable chain scope, the workflow on the model converges and the next diff is empty** -/
+theorem proved_chain (g : Globals) (hg : g.dialect = .mysql) (hio : g.ignoreOrder = false)
+    (scripts : List (List Stmt)) (p : List Stmt × DB) (older : List (List Stmt × DB))
+    (hr : Proved.revsOf scripts = some (p :: older)) (h : Proved.chainUp (p :: older) = true) :
+    ∃ hist d, histM g scripts.reverse = .ok hist ∧ loadAndDiff g hist p.1 = .ok d ∧
+      d.migrationUp g = .ok (d, []) ∧ d.migrationDown g = .ok (d, []) := by
+  obtain ⟨hex, hmap⟩ := Proved.revsOf_spec scripts [] (p :: older) (fun q hq => (by cases hq)) hr
+  obtain ⟨hvoc, hchain⟩ := Proved.chainUp_spec _ h
+  have hmap' : (p :: older).map (·.1) = scripts.reverse := by simpa using hmap
+  have := rounds_next_diff_empty g hg hio p older (fun q hq => ⟨(hvoc q hq).1, (hvoc q hq).2, hex q hq⟩) hchain
+  rw [hmap'] at this
+  exact this
+
+/-- … the fingerprints agree when the chain is ordered as well … -/
+theorem proved_chain_fingerprint (H : String → String) (F : String → Int) (g : Globals) (hg : g.dialect = .mysql)
+    (hio : g.ignoreOrder = false) (scripts : List (List Stmt)) (p : List Stmt × DB) (older : List (List Stmt × DB))
+    (hr : Proved.revsOf scripts = some (p :: older)) (h : Proved.chainUp (p :: older) = true)
+    (ho : Proved.chainOrdered (p :: older) = true) :
+    ∃ hist mH mP v, histM g scripts.reverse = .ok hist ∧ ReaderMysql.run {} hist = .ok mH ∧
+      ReaderMysql.run {} p.1 = .ok mP ∧ mH.hashWith H F g = .ok v ∧ mP.hashWith H F g = .ok v := by
+  obtain ⟨hex, hmap⟩ := Proved.revsOf_spec scripts [] (p :: older) (fun q hq => (by cases hq)) hr
+  obtain ⟨hvoc, hchain⟩ := Proved.chainUp_spec _ h
+  have hmap' : (p :: older).map (·.1) = scripts.reverse := by simpa using hmap
+  have := rounds_fingerprint H F g hg hio p older (fun q hq => ⟨(hvoc q hq).1, (hvoc q hq).2, hex q hq⟩) hchain
+    (Proved.chainOrdered_spec _ ho)
+  rw [hmap'] at this
+  exact this
+
+/-- … and the recorded down migrations lead back to the empty schema when every step is inside the C02 scope too -/
+theorem proved_chain_down (g : Globals) (hg : g.dialect = .mysql) (hio : g.ignoreOrder = false)
+    (scripts : List (List Stmt)) (revs : List (List Stmt × DB))
+    (hr : Proved.revsOf scripts = some revs) (h : Proved.chainUp revs = true) (hd : Proved.chainDown revs = true) :
+    ∃ hist ds, histD g scripts.reverse = .ok (hist, ds) ∧ ds.length = revs.length ∧ replay (lastDB revs) ds = some [] := by
+  obtain ⟨hex, hmap⟩ := Proved.revsOf_spec scripts [] revs (fun q hq => (by cases hq)) hr
+  obtain ⟨hvoc, hchain⟩ := Proved.chainUp_spec _ h
+  have hmap' : revs.map (·.1) = scripts.reverse := by simpa using hmap
+  have := rounds_down_from_last g hg hio revs (fun q hq => ⟨(hvoc q hq).1, (hvoc q hq).2, hex q hq⟩) hchain
+    (Proved.chainDown_spec _ hd)
+  rw [hmap'] at this
+  exact this
 
 end Sqlize
